@@ -226,6 +226,20 @@ def gen_script(rng, tier, n_keys=None, storages=1, scans=True, dumps=True, inlin
         before = len(ops)
         scan(nm)
         a = ops.pop().split()
+        if rng.random() < 0.3 and not a[2].startswith("~") and not a[4].startswith("~"):
+            # the cursor's node-version set must detect a later insert into its interval (C10 / C06)
+            lk = b"" if a[2] == "-" else bytes.fromhex(a[2])
+            rk = b"" if a[4] == "-" else bytes.fromhex(a[4])
+            cands = []
+            for base in [lk, rk] + (rng.sample(sorted(live[nm]), min(2, len(live[nm]))) if live[nm] else []):
+                cands += [base + b"\x01", base[:-1] + b"\x01" if base else b"\x01", base[:8] + b"m" if len(base) >= 8 else base + b"m",
+                          base + b"\xff"]
+            rng.shuffle(cands)
+            k = next((c for c in cands if c not in live[nm]), None)
+            if k is not None:
+                ops.append("iphantom %s %s %s %s %s %d %s %s" % (a[1], a[2], a[3], a[4], a[5], int(rng.random() < 0.5), hx(k), hx(b"ph")))
+                live[nm][k] = b"ph"
+                return
         ops.append("iscan %s %s %s %s %s %d" % (a[1], a[2], a[3], a[4], a[5], int(rng.random() < 0.5)))
 
     def probe(nm, n):
@@ -389,6 +403,7 @@ def abstract(line):
     if line is None:
         return None
     s = re.sub(r" mod=\S+ cre=\S+ cvp=\S+", "", line)
+    s = re.sub(r" EARLYPUB=\d+", "", s)
     s = re.sub(r" aa=\d+ af=\d+$", "", s)
     s = re.sub(r" existed=.*$", "", s)
     s = re.sub(r" end=\S+ cb=\[.*\]$", "", s)
@@ -466,7 +481,7 @@ def run_script(tag, ops, name="s", spec_only=False):
     return r
 
 
-NOSPEC = ("init", "fin", "enter", "leave", "sleep", "dump", "phantom", "getmiss")
+NOSPEC = ("init", "fin", "enter", "leave", "sleep", "dump", "phantom", "getmiss", "iphantom")
 
 
 def compare(r, categories):
@@ -487,6 +502,8 @@ def compare(r, categories):
             if "mem" in categories and i < len(r.spec) and r.spec[i] is not None and a != r.spec[i]:
                 res["oracle"].append(i)
             continue
+        if a is not None and "EARLYPUB" in a:
+            res["oracle"].append(i)      # a permutation word listed a slot whose entry had not been written yet
         if kind == "leave" and a is not None and "UNSTABLE" in a:
             res["oracle"].append(i)      # a value handed out by get inside the session changed before leave
         if kind in ("fin", "iopen", "inext", "iclose"):
@@ -706,6 +723,30 @@ def gen_failed_ddl_scripts(rng, tier):
                 ops.append("put %s 61 62 1 0 0" % hx(b"nosuch%d" % i))
         ops += ["create 74", "put 74 61 62 1 0 0", "get 74 61", "dropst 74", "list", "leave", "enter", "get 73 61", "leave", "fin"]
         out.append(("ddl%d" % n, ops))
+    return out
+
+
+def gen_deep_layer_scripts(rng, tier):
+    """one next layer (and layer 0) filled until its interior root is full and splits: every insert reports its
+    modified / created border (putinfo), the split of a layer root cascades into the border that holds the link"""
+    out = []
+    for n in range(2 if tier == "quick" else 6):
+        prefix = rng.choice([b"prefix88", b"", b"\0" * 8, b"prefix88prefix99"])
+        count = rng.choice([150, 200, 290])
+        keys = [prefix + bytes([0x21 + i // 90, 0x21 + i % 90]) for i in range(count)]
+        order = rng.choice(["asc", "desc", "shuffle"])
+        if order == "desc":
+            keys.reverse()
+        elif order == "shuffle":
+            rng.shuffle(keys)
+        ops = ["init", "enter", "create 73", "put 73 61 76 1 0 0", "put 73 7a 76 1 0 0"]
+        for k in keys:
+            ops.append("putinfo 73 %s %s" % (hx(k), hx(b"v")))
+        ops.append("scan 73 - INF - INF 0 0")
+        for k in rng.sample(keys, 20):
+            ops.append("get 73 %s" % hx(k))
+        ops += ["dump 73", "leave", "fin"]
+        out.append(("deep%d" % n, ops))
     return out
 
 
@@ -991,6 +1032,20 @@ def gen_cursor_script(rng, tier):
     live = {}
     n = rng.choice([6, 18, 40])
     prefix = rng.choice(kg.prefixes[1:]) if len(kg.prefixes) > 1 else b"prefix88"
+    deep = rng.random() < 0.4
+    if deep:
+        # three trie layers: a second-level slice under the prefix, with the keys a repositioned cursor must land on
+        # (the 8-byte key of that slice, the successor of the slice, a successor that strips 0xff bytes)
+        mid = rng.choice([b"QQQQQQQQ", b"QQQQQQQ\xff", b"\xff" * 8, b"\0" * 8])
+        for suf in (b"a", b"b", b"c"):
+            live[prefix + mid + suf] = True
+        succ = mid.rstrip(b"\xff")
+        if succ:
+            live[prefix + succ[:-1] + bytes([succ[-1] + 1])] = True
+        if rng.random() < 0.5:
+            live[prefix + mid] = True
+        for k in sorted(live):
+            ops.append("put %s %s 76 1 0 0" % (hx(st), hx(k)))
     while len(live) < n:
         k = (prefix if rng.random() < 0.6 else b"") + bytes([rng.choice(ALPH + [0x62, 0x63, 0x64])] ) + bytes(rng.choice(ALPH) for _ in range(rng.choice([0, 1, 2])))
         if k not in live:
